@@ -10,6 +10,7 @@ import (
 	"fmt"
 	"sort"
 	"strings"
+	"sync"
 	"time"
 
 	leanhelix "github.com/orbs-network/lean-helix-go"
@@ -133,7 +134,7 @@ func (n *cnode) RequestNewBlockProposal(ctx context.Context, blockHeight primiti
 	n.proposalSeq++
 	n.proposals++
 	body := fmt.Sprintf("b%d.n%d.%d", uint64(blockHeight), n.idx, n.proposalSeq)
-	n.cl.bodies[body] = true
+	n.cl.addBody(body)
 	n.proposed = append(n.proposed, body)
 	return &vBlock{height: uint64(blockHeight), body: body}, hashOfBody(body)
 }
@@ -257,8 +258,15 @@ type cluster struct {
 	rotate    bool     // committee order shifts by one per height
 	nodes     []*cnode // index = member index; nil for Byzantine members
 	bodies    map[string]bool
+	bodiesMu  sync.Mutex
 	lenient   bool // consumer validators accept a proposal without a block
 	genesisOk bool
+}
+
+func (cl *cluster) addBody(b string) {
+	cl.bodiesMu.Lock()
+	cl.bodies[b] = true
+	cl.bodiesMu.Unlock()
 }
 
 func idName(i int) string { return fmt.Sprintf("n%d", i) }
